@@ -36,10 +36,12 @@ def mRank (J : Nat) : MainPc → Nat
   | .checkTimeout => 2
   | .join i _ _ => 3 + (J - i)
   | .setFin => J + 5
-  | .pollDead true => J + 6
-  | .poll => J + 7
-  | .pollDead false => J + 8
-  | .sendIntr => J + 8
+  | .settleCancel => J + 6
+  | .settleCheck => J + 7
+  | .pollDead true => J + 8
+  | .poll => J + 9
+  | .pollDead false => J + 10
+  | .sendIntr => J + 10
 def muM (s : S) : Nat := mRank s.joinOrder.length s.mainPc + (if s.intr then 3 else 0)
 
 def mu (s : S) : Nat := muM s + muO s + muE s + muI s
@@ -51,7 +53,8 @@ def Terminal (s : S) : Prop :=
 instance (s : S) : Decidable (Terminal s) := by unfold Terminal; infer_instance
 
 def preJoin : MainPc → Bool
-  | .poll => true | .pollDead _ => true | .sendIntr => true | .setFin => true | _ => false
+  | .poll => true | .pollDead _ => true | .sendIntr => true | .settleCheck => true | .settleCancel => true
+  | .setFin => true | _ => false
 
 /-- facts about reachable states that the termination argument needs -/
 structure TermWF (s : S) : Prop where
@@ -215,7 +218,7 @@ theorem joinOrder_congr (s t : S) (h : t.opts = s.opts) : t.joinOrder = s.joinOr
   simp [S.joinOrder, h.1, h.2.2.2.1]
 
 theorem mainStep_fin (s : S) (h : s.mainPc ≠ .setFin) : (mainStep s).fin = s.fin := by
-  unfold mainStep nextJoin enterJoin afterJoins
+  unfold mainStep nextJoin enterJoin afterJoins leaveWait
   cases hm : s.mainPc <;> simp only [] <;> (repeat' split) <;> simp_all
 
 theorem muM_afterJoins (s : S) : muM (afterJoins s) ≤ 2 + (if s.intr then 3 else 0) := by
@@ -247,7 +250,8 @@ theorem mainStep_muM_le (s : S) (he : EnvDone s) :
   | pollDead b =>
     simp only [mainStep, hm]
     split
-    · cases b <;> simp [muM, mRank, hm, S.joinOrder] <;> omega
+    · unfold leaveWait
+      cases b <;> split <;> simp [muM, mRank, hm, S.joinOrder] <;> omega
     · rename_i hb
       have : b = false := by cases b <;> simp_all
       subst this
@@ -276,6 +280,8 @@ theorem mainStep_muM_le (s : S) (he : EnvDone s) :
       · split
         · simp only [nextJoin, hs]; simp; omega
         · simp [muM, mRank, hm, S.joinOrder]
+  | settleCheck => simp only [mainStep, hm]; split <;> simp [muM, mRank, hm, S.joinOrder]
+  | settleCancel => simp [mainStep, muM, mRank, hm, S.joinOrder]
   | checkTimeout => simp [mainStep, muM, mRank, hm]
   | stop => simp [mainStep, muM, mRank, hm]
   | done => simp [mainStep, hm]
@@ -295,7 +301,8 @@ theorem mainStep_muM_lt (s : S) (he : EnvDone s) (hen : EnMain s = true) :
   | pollDead b =>
     simp only [mainStep, hm]
     split
-    · cases b <;> simp [muM, mRank, hm, S.joinOrder] <;> omega
+    · unfold leaveWait
+      cases b <;> split <;> simp [muM, mRank, hm, S.joinOrder] <;> omega
     · rename_i hb
       have : b = false := by cases b <;> simp_all
       subst this
@@ -329,6 +336,8 @@ theorem mainStep_muM_lt (s : S) (he : EnvDone s) (hen : EnMain s = true) :
           rcases hen with h | h
           · exact hf h
           · exact ht h
+  | settleCheck => simp only [mainStep, hm]; split <;> simp [muM, mRank, hm, S.joinOrder]
+  | settleCancel => simp [mainStep, muM, mRank, hm, S.joinOrder]
   | checkTimeout => simp [mainStep, muM, mRank, hm]
   | stop => simp [mainStep, muM, mRank, hm]
   | done => simp [EnMain, hm] at hen
@@ -384,8 +393,10 @@ theorem step_mu_le (s : S) (a : Actor) (he : EnvDone s) (hw : TermWF s) : mu (st
     · exact Nat.le_refl _
     · split
       · simp [mu, muM, muO, muE, muI, closeCredit, S.joinOrder]
-      · rw [killEffect_id s he.exited]
-        simp [mu, muM, muO, muE, muI, closeCredit, S.joinOrder]
+      · split
+        · simp [mu, muM, muO, muE, muI, closeCredit, S.joinOrder]
+        · rw [killEffect_id s he.exited]
+          simp [mu, muM, muO, muE, muI, closeCredit, S.joinOrder]
       · simp [mu, muM, muO, muE, muI, closeCredit, S.joinOrder]
       · exact Nat.le_refl _
   | main =>
@@ -488,7 +499,9 @@ theorem envDone_step (s : S) (a : Actor) (he : EnvDone s) : EnvDone (step s a) :
     · exact ⟨h1, h2, h3, h4⟩
     · split
       · exact ⟨h1, h2, h3, h4⟩
-      · rw [killEffect_id s h1]; exact ⟨h1, h2, h3, h4⟩
+      · split
+        · exact ⟨h1, h2, h3, h4⟩
+        · rw [killEffect_id s h1]; exact ⟨h1, h2, h3, h4⟩
       · exact ⟨h1, h2, h3, h4⟩
       · exact ⟨h1, h2, h3, h4⟩
   | main =>
@@ -496,7 +509,7 @@ theorem envDone_step (s : S) (a : Actor) (he : EnvDone s) : EnvDone (step s a) :
     have ho := opts_main s
     simp only [S.opts, Prod.mk.injEq] at ho
     have hex : (mainStep s).exited = s.exited := by
-      unfold mainStep nextJoin enterJoin afterJoins
+      unfold mainStep nextJoin enterJoin afterJoins leaveWait
       cases s.mainPc <;> simp only [] <;> (repeat' split) <;> simp_all
     exact ⟨by simp only [step]; rw [hex]; exact h1, by simp only [step]; rw [f1]; exact h2,
            by simp only [step]; rw [f2]; exact h3, by simp only [step]; rw [ho.2.2.2.2.2.2.2]; exact h4⟩
@@ -510,7 +523,9 @@ theorem mainStep_finOrPre (s : S) (h : s.fin = true ∨ preJoin s.mainPc = true 
   · cases hm : s.mainPc with
     | poll => right; left; simp only [mainStep, hm]; split <;> rfl
     | sendIntr => right; left; simp [mainStep, hm, preJoin]
-    | pollDead b => right; left; simp only [mainStep, hm]; split <;> rfl
+    | pollDead b => right; left; simp only [mainStep, hm]; unfold leaveWait; (repeat' split) <;> rfl
+    | settleCheck => right; left; simp only [mainStep, hm]; split <;> rfl
+    | settleCancel => right; left; simp [mainStep, hm, preJoin]
     | setFin =>
       left
       simp only [mainStep, hm]
@@ -533,11 +548,13 @@ theorem termWF_step (s : S) (a : Actor) (hw : TermWF s) : TermWF (step s a) := b
     · exact ⟨h1, h2⟩
     · split
       · exact ⟨h1, h2⟩
-      · obtain ⟨_, k2, _, _, k5, _, k7⟩ := killEffect_stdin_frame s
-        have ko := opts_kill s
-        simp only [S.opts, Prod.mk.injEq] at ko
-        have km : (killEffect s).mainPc = s.mainPc := by unfold killEffect; split <;> rfl
-        exact ⟨by simpa [k7, km, ko.1] using h1, by simpa [k2, k5, ko.2.2.2.1] using h2⟩
+      · split
+        · exact ⟨h1, h2⟩
+        · obtain ⟨_, k2, _, _, k5, _, k7⟩ := killEffect_stdin_frame s
+          have ko := opts_kill s
+          simp only [S.opts, Prod.mk.injEq] at ko
+          have km : (killEffect s).mainPc = s.mainPc := by unfold killEffect; split <;> rfl
+          exact ⟨by simpa [k7, km, ko.1] using h1, by simpa [k2, k5, ko.2.2.2.1] using h2⟩
       · exact ⟨h1, h2⟩
       · exact ⟨h1, h2⟩
   | main =>
@@ -642,6 +659,8 @@ theorem progress (s : S) (hw : TermWF s) (hn : ¬ Terminal s) : ∃ a, En s a = 
     | poll => rfl
     | pollDead b => rfl
     | sendIntr => rfl
+    | settleCheck => rfl
+    | settleCancel => rfl
     | setFin => rfl
     | checkTimeout => rfl
     | stop => rfl
@@ -659,12 +678,14 @@ theorem timerStep_frame (s : S) :
   · simp
   · split
     · simp [S.opts]
-    · have k := killEffect_stdin_frame s
-      have ko := opts_kill s
-      have km : (killEffect s).mainPc = s.mainPc ∧ (killEffect s).outPc = s.outPc ∧ (killEffect s).errPc = s.errPc := by
-        unfold killEffect; split <;> simp
-      simp only [S.opts] at ko ⊢
-      simp_all
+    · split
+      · simp [S.opts]
+      · have k := killEffect_stdin_frame s
+        have ko := opts_kill s
+        have km : (killEffect s).mainPc = s.mainPc ∧ (killEffect s).outPc = s.outPc ∧ (killEffect s).errPc = s.errPc := by
+          unfold killEffect; split <;> simp
+        simp only [S.opts] at ko ⊢
+        simp_all
     · simp [S.opts]
     · simp
 
@@ -711,6 +732,8 @@ theorem enMain_congr (s t : S) (ho : t.opts = s.opts) (hm : t.mainPc = s.mainPc)
   | poll => rfl
   | pollDead b => rfl
   | sendIntr => rfl
+  | settleCheck => rfl
+  | settleCancel => rfl
   | setFin => rfl
   | checkTimeout => rfl
   | stop => rfl
@@ -975,7 +998,7 @@ theorem doneDisarmed_step (s : S) (a : Actor) (h : DoneDisarmed s) : DoneDisarme
       · rename_i hh
         have : s.hasTimer = false := by simpa using hh
         rw [h2 this]; simp
-      · split <;> simp_all
+      · split <;> (try split) <;> simp_all
     constructor
     · intro _; simp only [step]; exact key.1
     · intro hf; simp only [step] at hf ⊢; rw [to.2.1] at hf; exact key.2 (h2 hf)
@@ -987,10 +1010,10 @@ theorem doneDisarmed_step (s : S) (a : Actor) (h : DoneDisarmed s) : DoneDisarme
     · have : mainStep s = s := by simp [mainStep, hd]
       simp only [step]; rw [this]; exact ⟨h1, h2, h3⟩
     · have key : (mainStep s).tmPc = s.tmPc ∨ ((mainStep s).tmPc = .cancelled ∧ s.tmPc = .armed) := by
-        unfold mainStep nextJoin enterJoin afterJoins
+        unfold mainStep nextJoin enterJoin afterJoins leaveWait
         cases s.mainPc <;> simp only [] <;> (repeat' split) <;> simp_all
       have key2 : (mainStep s).mainPc = .done → s.mainPc = .stop ∨ (s.hasTimer = false) ∨ s.startFails = true := by
-        unfold mainStep nextJoin enterJoin afterJoins
+        unfold mainStep nextJoin enterJoin afterJoins leaveWait
         cases hm : s.mainPc <;> simp only [] <;> (repeat' split) <;> simp_all
       constructor
       · intro hdone
